@@ -1562,4 +1562,10 @@ theorem D_affine_const (nv : ℕ) (p p' : ℕ → ℝ) (hp : ∀ j, nv ≤ j →
     · subst he; simp [Fn.D]
 
 
+/-- environments built from vectors of the same lengths at the same time agree on every variable that is not a state /
+input entry -/
+theorem mkEnv_agree (x u : DVec ℝ) (t : ℝ) (x' u' : DVec ℝ) (hx : x'.length = x.length) (hu : u'.length = u.length) :
+    ∀ j, x.length + u.length ≤ j → mkEnv x' u' t j = mkEnv x u t j := fun j hj =>
+  sub_eq_zero.mp (mkEnv_diff_support x u t x' u' hx hu j (by simpa using hj))
+
 end PP.Dyn
